@@ -177,7 +177,7 @@ def assign_lengths(t, rng, mode='exact', root_len=False, p_missing=0.0, zero_ok=
             nd.length = None
     return t
 
-def name_internals(t, rng, p=0.5, p_collide=0.15):
+def name_internals(t, rng, p=0.5, p_collide=0.0):
     """names for internal nodes; with probability p_collide an internal node takes the name of some LEAF (legal: only leaf names
     must be unique) — e.g. a support value equal to a numeric taxon name"""
     k = 0
@@ -224,13 +224,13 @@ def build_ops(t):
     go(t, None)
     return ops
 
-def rand_tree(rng, n_leaves, lengths='exact', p_multi=0.3, p_unary=0.0, internal_names=0.5, names=None, root_len=False, p_missing=0.0):
+def rand_tree(rng, n_leaves, lengths='exact', p_multi=0.3, p_unary=0.0, internal_names=0.5, names=None, root_len=False, p_missing=0.0, collide=0.0):
     t = rand_shape(rng, n_leaves, p_multi, p_unary)
     nm = names or default_names(n_leaves, 0 if n_leaves <= 26 else 2)
     nm = list(nm)
     rng.shuffle(nm)
     name_leaves(t, nm)
-    name_internals(t, rng, internal_names)
+    name_internals(t, rng, internal_names, collide)
     assign_lengths(t, rng, lengths, root_len, p_missing)
     return t
 
